@@ -58,6 +58,8 @@ struct Finding {
     detail: String,
     ord: usize,
     kind: BlockKind,
+    /// the block is, or lies in, the body of an anonymous routine
+    in_anon: bool,
 }
 
 fn check_block(prog: &Program, b: &Block, pl: &Placed, cfg: &Cfg, cond_wrapped: &std::collections::HashSet<usize>, findings: &mut Vec<Finding>, stats: &mut CaseOut) {
@@ -88,6 +90,7 @@ fn check_block(prog: &Program, b: &Block, pl: &Placed, cfg: &Cfg, cond_wrapped: 
     // (a statement wrapped in a conditional directive is absent in the pass that does not take the
     // branch, so a body counts as single-statement when at most one statement is unconditional)
     let inline_anon = prog.blocks.iter().any(|a| a.kind == BlockKind::AnonBegin && a.items.iter().filter(|it| !cond_wrapped.contains(it)).count() <= 1 && a.opener <= b.opener && a.closer.is_some_and(|c| c >= b.opener));
+    let in_anon = prog.blocks.iter().any(|a| a.kind == BlockKind::AnonBegin && a.opener <= b.opener && a.closer.is_some_and(|c| c >= b.opener));
     let Some(anchor) = anchor else {
         stats.count("blocks_unanchored");
         return;
@@ -97,10 +100,10 @@ fn check_block(prog: &Program, b: &Block, pl: &Placed, cfg: &Cfg, cond_wrapped: 
     // always_wrap: the begin of a control-flow body starts its own line at the header's indentation
     if b.kind == BlockKind::CtrlBegin && cfg.always_wrap_begin {
         if !ofirst {
-            findings.push(Finding { class: "begin-not-wrapped", detail: format!("begin_style=always_wrap but control-flow `begin` is not first on its line: {}", what(b.opener)), ord: pl.ord[b.opener], kind: b.kind });
+            findings.push(Finding { class: "begin-not-wrapped", detail: format!("begin_style=always_wrap but control-flow `begin` is not first on its line: {}", what(b.opener)), ord: pl.ord[b.opener], kind: b.kind, in_anon });
         } else if let Some(h) = header {
             if h != olead {
-                findings.push(Finding { class: "begin-indentation", detail: format!("always_wrap `begin` indented {:?} but its controlling statement {:?}: {}", olead, h, what(b.opener)), ord: pl.ord[b.opener], kind: b.kind });
+                findings.push(Finding { class: "begin-indentation", detail: format!("always_wrap `begin` indented {:?} but its controlling statement {:?}: {}", olead, h, what(b.opener)), ord: pl.ord[b.opener], kind: b.kind, in_anon });
             }
         }
     }
@@ -114,6 +117,7 @@ fn check_block(prog: &Program, b: &Block, pl: &Placed, cfg: &Cfg, cond_wrapped: 
                 detail: format!("{:?} item does not start its line: {}", b.kind, what(it)),
                 ord: pl.ord[it],
                 kind: b.kind,
+                in_anon,
             });
         } else if l != expect_item {
             findings.push(Finding {
@@ -121,6 +125,7 @@ fn check_block(prog: &Program, b: &Block, pl: &Placed, cfg: &Cfg, cond_wrapped: 
                 detail: format!("{:?} item indented {:?}, expected {:?} (opener line {:?} + one unit): {}", b.kind, l, expect_item, anchor, what(it)),
                 ord: pl.ord[it],
                 kind: b.kind,
+                in_anon,
             });
         }
     }
@@ -133,9 +138,10 @@ fn check_block(prog: &Program, b: &Block, pl: &Placed, cfg: &Cfg, cond_wrapped: 
                 detail: format!("{:?} closer is not first on its line: {}", b.kind, what(c)),
                 ord: pl.ord[c],
                 kind: b.kind,
+                in_anon,
             });
         } else if l != anchor {
-            findings.push(Finding { class: if inline_anon { "anon-single-statement-body" } else { "closer-indentation" }, detail: format!("{:?} closer indented {:?}, opener line {:?}: {}", b.kind, l, anchor, what(c)), ord: pl.ord[c], kind: b.kind });
+            findings.push(Finding { class: if inline_anon { "anon-single-statement-body" } else { "closer-indentation" }, detail: format!("{:?} closer indented {:?}, opener line {:?}: {}", b.kind, l, anchor, what(c)), ord: pl.ord[c], kind: b.kind, in_anon });
         }
     }
 }
@@ -247,6 +253,11 @@ impl Prop for C05 {
                     "strict-identifier-in-type-body".to_string()
                 } else if strict_comment_ord.is_some_and(|o| f.ord >= o) && matches!(f.kind, BlockKind::Visibility | BlockKind::TypeBody | BlockKind::DeclSection) {
                     "comment-between-strict-and-visibility".to_string()
+                } else if f.in_anon && wf::comment_after_conditional_directive(&input) {
+                    // a comment after a conditional directive counts as part of the code line before the
+                    // directive (C11 class of the same name): directly after the `begin` of an anonymous
+                    // routine it changes where that `begin` is put, but not its statements
+                    "comment-after-conditional-directive".to_string()
                 } else if obs.reflow_cache_hit() && input.contains("'''") && matches!(f.kind, BlockKind::AnonBegin | BlockKind::CtrlBegin | BlockKind::PlainBegin | BlockKind::Try | BlockKind::Finally | BlockKind::Except | BlockKind::Repeat | BlockKind::CaseElse) {
                     // child lines (anonymous routine bodies) laid out by the second wrapping round from
                     // solutions memoised before a multi-line literal was re-indented
